@@ -1,7 +1,8 @@
 SPECIFICATION Spec
 CONSTANTS
-  MaxNodes = 9
+  MaxNodes = 5
   MaxAttrs = 5
+  Skels = {"A", "B"}
 INVARIANT CodeNeverStricter
 INVARIANT DiffOnlyUnderAlias
 INVARIANT BogusInvalid
